@@ -300,7 +300,9 @@ pub fn check_bsd(c: &BsdCase, rec: &mut Rec) -> Result<(), Violation> {
   let nb = lattice::neighbours(n, lattice::nested_decode(d, h0)).map_err(|e| Violation::new("harness", "model_error", e.0))?;
   let allowed: Vec<u64> = nb.iter().filter_map(|x| x.map(|c| lattice::nested_hash(d, c))).collect();
   for &az in &c.az {
-    let (wl, wb) = geom::point_at(lon, lat, r * (1.0 - 1e-9), az);
+    // 1e-9 relative inside the rim, and 1e-15 rad more: positions (the witness, the cell borders)
+    // are only known to ~1e-16 rad, which is 4e-8 r at depth 28
+    let (wl, wb) = geom::point_at(lon, lat, (r * (1.0 - 1e-9) - 1e-15).max(0.0), az);
     let hw = match catch(|| nested::hash(d, wl, wb)) {
       Ok(h) => h,
       Err(_) => continue,
@@ -309,7 +311,7 @@ pub fn check_bsd(c: &BsdCase, rec: &mut Rec) -> Result<(), Violation> {
       return Err(f(Violation::new(
         "bsd_geometric_claim",
         "cone_leaves_9_cells",
-        format!("best_starting_depth({:e}) = {}: the point ({:e}, {:e}) at distance r(1-1e-9) from the centre ({:e}, {:e}) is in cell {}, which is neither the centre's cell {} nor one of its neighbours {:?}", r, d, wl, wb, lon, lat, hw, h0, allowed),
+        format!("best_starting_depth({:e}) = {}: the point ({:e}, {:e}) at distance r(1-1e-9) - 1e-15 from the centre ({:e}, {:e}) is in cell {}, which is neither the centre's cell {} nor one of its neighbours {:?}", r, d, wl, wb, lon, lat, hw, h0, allowed),
       )
       .fact("bsd", d as f64)));
     }
